@@ -223,6 +223,20 @@ def newick(lex, ref, tree_calc):
     return str(lex.tree)
 
 
+# non-default keyword values of get_scorer; the first one (vowel scale, other ratio) is always used
+SCORER_VARIANTS = [
+    dict(vscale=0.5, ratio=(2, 1)),
+    dict(vscale=0.25, ratio=(1, 1), factor=0.5, smooth=0),
+    dict(vscale=2.0, ratio=(3, 1), modes=[("global", -3, 0.6), ("overlap", -1, 0.4)], unattested=-3, unexpected=0.001),
+    dict(vscale=0.75, threshold=0.5, restricted_chars="_", modes=[("local", -2, 0.5)]),
+    dict(vscale=0.5, ratio=(1, 2), preprocessing=True, preprocessing_threshold=0.6, smooth=2),
+]
+
+
+def _jsonable_kw(kw):
+    return {k: (list(map(list, v)) if k == "modes" else list(v) if isinstance(v, tuple) else v) for k, v in kw.items()}
+
+
 CLUSTER_CALLS = [
     ("turchinid", dict(method='turchin', threshold=0.5)),
     ("editid", dict(method='edit-dist', threshold=0.5)),
@@ -433,6 +447,29 @@ def pipeline(path, seed, runs, full):
         e2e["cscorer_markov"] = [[float(v).hex() for v in row] for row in lex2.cscorer.matrix]
         lex2.cluster(method='lexstat', threshold=0.6, override=True)
         e2e["lexstatid_markov"] = column(lex2, 'lexstatid')
+    # non-default keyword values of get_scorer / get_partial_scorer on fresh objects: two variants per dataset
+    from lingpy.compare.partial import Partial as _Partial
+    vr = random.Random("%s-%d" % (os.path.basename(path), seed))      # str seed: independent of PYTHONHASHSEED
+    picks = [SCORER_VARIANTS[0]] + vr.sample(SCORER_VARIANTS[1:], 1)
+    out["kernels"]["scorer_variants"] = []
+    e2e["scorer_variants"] = []
+    for vi, kw in enumerate(picks):
+        cls = _Partial if (vi == 1 and vr.random() < 0.5) else LexStat
+        random.seed(seed)
+        lv = cls(path)
+        random.seed(seed)
+        (lv.get_partial_scorer if cls is _Partial else lv.get_scorer)(runs=runs, **kw)
+        mv = lv.cscorer.matrix
+        tabv = {}
+        out["kernels"]["scorer_variants"].append({
+            "chars": list(lv.chars), "fkeys": [list(lv.freqs[t]) for t in lv.cols],
+            "b": _matrix_ids(tabv, lv.bscorer.matrix), "c": _matrix_ids(tabv, mv)})
+        asym = [[lv.chars[a], lv.chars[b], float(mv[a][b]).hex(), float(mv[b][a]).hex()]
+                for a in range(len(mv)) for b in range(a) if mv[a][b] != mv[b][a]][:5]
+        lv.cluster(method='lexstat', threshold=0.6, override=True)
+        e2e["scorer_variants"].append({"class": cls.__name__, "keywords": _jsonable_kw(kw), "asymmetric": asym,
+                                       "cscorer": [[float(v).hex() for v in row] for row in mv],
+                                       "lexstatid": column(lv, 'lexstatid')})
     # Partial cognate detection: its own scorer assembly (compare/partial.py), clusterings
     from lingpy.compare.partial import Partial
     random.seed(seed)
